@@ -337,6 +337,10 @@ def check_cdist(r, rule):
     okv = head(v) == "call" and len(v[2]) == 2 and strip_all(v[2][0]) in acc0 and strip_all(v[2][1]) in acc1
     okkw = head(v) == "call" and any(k == "**" for k, x in v[3])
     rep.ob(rule, q, okv, "entry [i, j] is metric(A[i], B[j])", w, expected="metric(stringsA[i], stringsB[j], **kwargs)", found=show(v, 100), key="cdist operands")
+    fn = strip(v[1]) if head(v) == "call" else None
+    okf = fn is not None and ((head(fn) == "ite" and strip_all(fn[1]) == ("cmp", "is", metric, NONE) and strip(fn[3]) == metric and head(strip(fn[2])) == "glob" and "evenshtein" in strip(fn[2])[1])
+                              or (head(fn) == "ite" and strip_all(fn[1]) in (("cmp", "isnot", metric, NONE), ("un", "not", ("cmp", "is", metric, NONE))) and strip(fn[2]) == metric and head(strip(fn[3])) == "glob" and "evenshtein" in strip(fn[3])[1]))
+    rep.ob(rule, q, okf, "the default metric is the Levenshtein distance, a given metric is used as is", w, expected="levenshtein_distance if metric is None else metric", found=show(fn, 80), key="cdist metric")
     rep.ob(rule, q, okkw, "extra keyword arguments are forwarded to the metric", w, expected="**kwargs", found="forwarded" if okkw else "not forwarded", key="cdist kwargs")
     alloc = strip(s.ret)
     oks = head(alloc) == "call" and strip(alloc[1]) in (("glob", "numpy.empty"), ("glob", "numpy.zeros")) and alloc[2] and head(strip(alloc[2][0])) == "tuple" and len(strip(alloc[2][0])[1]) == 2 \
